@@ -149,6 +149,25 @@ def rule_hd_shapes(cx, rep, port='py'):
     oka = bool(ab) and "table_name not in ['a', 'b']" in node_text(ab[0], 3000)
     rep.decide(oka, 'attribute table', ab[0] if ab else fd, 'a.name / b.name only', 'attribute access on something other than a/b is treated as a column')
     al = p.func('rbql_engine', 'search_for_as_alias_pseudo_function')
+    root = al.args.args[0].arg
+    loops = [n for n in walk_no_nested(al) if isinstance(n, ast.For)]
+    if len(loops) == 1:
+        it = loops[0].iter
+        if isinstance(it, ast.Call) and dotted(it.func) == 'ast.walk' and it.args and is_name(it.args[0], root) and not any(isinstance(x, ast.Return) and x.lineno < loops[0].lineno for x in walk_no_nested(al)):
+            rep.holds('alias search', loops[0], 'the alias pseudo-call is searched in the whole expression tree')
+        elif root in names_in(it):
+            rep.violated('alias search', loops[0], 'the alias pseudo-call is searched only in `{}`, not in the whole expression tree: `==` binds tighter than or/and/not/ternary, so for such expressions the alias is not at the top and the column loses its alias name'.format(node_text(it, 80)))
+        else:
+            rep.undecided('alias search', loops[0], 'alias search traversal not recognised')
+    else:
+        early = [x for x in walk_no_nested(al) if isinstance(x, ast.If) and 'isinstance' in node_text(x.test) and isinstance(x.body[0], ast.Return)]
+        if early:
+            rep.violated('alias search', early[0], 'the alias search gives up unless the expression root has a particular node type (`{}`): aliases on boolean/ternary expressions are lost'.format(node_text(early[0].test, 80)))
+        else:
+            rep.undecided('alias search', al, 'alias search loop not found')
+    early = [x for x in al.body if isinstance(x, ast.If) and isinstance(x.body[-1], ast.Return) and 'isinstance' in node_text(x.test)]
+    if early:
+        rep.violated('alias search root test', early[0], 'the alias search returns early depending on the root node type (`{}`): aliases on boolean/ternary expressions are lost'.format(node_text(early[0].test, 80)))
     okl = "'alias_column_as_pseudo_func'" in node_text(al, 5000)
     ts = p.func('rbql_engine', 'translate_select_expression')
     okl = okl and 'alias_column_as_pseudo_func(\\\\2)' in node_text(ts, 5000)
